@@ -506,7 +506,7 @@ EXPECT = ["C02.adapted_tree_nd.measure_times_intensity_is_cell_mass", "C02.alias
 
 
 def main(tier):
-    bounds = {"histories_and_variants": '1-d adapted tree on 1+1 (quick) / up to 2+2 points, and after another chain built and sampled on the same grid; Table: top byte of the 32-bit word modelled as floor(256u), other bit operations outside',
+    bounds = {"histories_and_variants": '1-d adapted tree on 1+1 (quick) / up to 2+2 points, and after another chain built and sampled on the same grid; Table: top byte of the 32-bit word modelled as floor(256u), other bit operations outside; 1-d adapted tree on a grid that cuts its cells at a solver-chosen weighted point (2+2 points)',
               "quick": "probability vectors of length <= 3 (alias, BST, Huffman), Table: 9 slot-count patterns (n <= 3) with symbolic fractional parts, "
                        "inversion on 1-d grids up to 2+1 states; all real-valued p, u",
               "thorough": "length <= 4 (alias, Huffman) / 5 (BST); Table: every slot count for n=2 and the boundary family for n=3; inversion up to 2+3 states",
